@@ -560,12 +560,30 @@ func newlineIndexOf(j ssa.Value, base ssa.Value, use ssa.Instruction) (bool, str
 	}
 	seen := map[*ssa.Phi]bool{}
 	var walk func(v ssa.Value, conds []Cond) (bool, string)
+	// allSearches: every leaf of a merged index is a newline search in this batch (then "the merged value is >= 0" says
+	// that whichever search produced it found a newline)
+	var allSearches func(v ssa.Value, d int) bool
+	allSearches = func(v ssa.Value, d int) bool {
+		if ph, ok := v.(*ssa.Phi); ok && d < 6 {
+			for _, e := range ph.Edges {
+				if !allSearches(e, d+1) {
+					return false
+				}
+			}
+			return true
+		}
+		return isSearch(v)
+	}
 	walk = func(v ssa.Value, conds []Cond) (bool, string) {
 		if ph, ok := v.(*ssa.Phi); ok {
 			if seen[ph] {
 				return true, ""
 			}
 			seen[ph] = true
+			// `if j < 0 { j = IndexByte(p, '\n') }; if j < 0 { break }`: the test is made on the merged value
+			if nonNeg(conds, ph) && allSearches(ph, 0) {
+				return true, ""
+			}
 			for i, e := range ph.Edges {
 				if ok, why := walk(e, EdgeConds(ph.Block().Preds[i], ph.Block())); !ok {
 					return false, why
